@@ -236,8 +236,16 @@ type live struct {
 	ts   []int64    // ts[n], n = 1..max
 	img  [][32]byte // img[n]
 	by   map[[32]byte][]int
-	l0q  []int64 // publication number of level-0 file n (last completed publication), 0 = never seen by the proxy
+	l0q  []int64 // publication number of level-0 file n (last completed publication), neverPublished = not seen by the proxy
 	dupN int
+
+	snapFiles []liveSnapFile // level-9 files left on the replica, with the header time read back
+	snapS     map[int]int64  // N -> header time of level-9 file 1..N
+}
+
+type liveSnapFile struct {
+	oracle.FileRef
+	S int64
 }
 
 const neverPublished = int64(1) << 62
@@ -430,6 +438,11 @@ func runLive(s spec, dir string, res *vf.Result) *vf.Result {
 	}
 
 	time.Sleep(time.Duration(s.RunMs) * time.Millisecond)
+	// on a loaded machine keep going (at most as long again) until enough has been
+	// replicated for the case to say something; duration never enters a verdict
+	for extra := 0; extra < s.RunMs && pub.seq.Load() < 150; extra += 250 {
+		time.Sleep(250 * time.Millisecond)
+	}
 	close(stop)
 	wg.Wait()
 
@@ -449,7 +462,7 @@ func runLive(s spec, dir string, res *vf.Result) *vf.Result {
 	}
 
 	lv := &live{s: s, e: e, res: res, pub: pub}
-	if bad := lv.scan(); bad {
+	if lv.scan() || lv.readSnapshots() {
 		return res
 	}
 
@@ -461,6 +474,9 @@ func runLive(s spec, dir string, res *vf.Result) *vf.Result {
 	decided, overlapped := 0, 0
 	for i := range all {
 		r := &all[i]
+		if len(res.Violations) >= 3 || res.HarnessErr != "" {
+			break // enough witnesses
+		}
 		if lv.decide(fmt.Sprintf("live restore #%d by restorer %d (%s)", i, r.who, r.kind), r, false) {
 			decided++
 			if r.endSeq > r.startSeq {
@@ -488,7 +504,10 @@ func runLive(s spec, dir string, res *vf.Result) *vf.Result {
 	}
 	res.Count("live_snapshots_taken", snapOK)
 	res.Count("live_snapshot_calls_that_waited_for_a_sync", snapWaited)
-	examined := lv.checkSnapshots()
+	examined := 0
+	if res.HarnessErr == "" {
+		examined = lv.checkSnapshots()
+	}
 
 	for _, rp := range rproxies {
 		res.Count("live_restore_proxy_listings", int(rp.lists.Load()))
@@ -503,6 +522,8 @@ func runLive(s spec, dir string, res *vf.Result) *vf.Result {
 	res.Count("variant_live", 1)
 	res.Count(fmt.Sprintf("page_size_%d", s.Cfg.PageSize), 1)
 	res.Sig = fmt.Sprintf("live-%d-%s", s.Seed, s.Cfg.String())
+	e.Logf("live: litestream log messages: %v", e.Logs.Snapshot())
+	e.Logf("live: cfg %s: txids=%d restore calls=%d decided=%d overlapping a publication=%d snapshots ok=%d level-9 files=%d", s.Cfg.String(), lv.max, len(all), decided, overlapped, snapOK, examined)
 	res.Nontrivial = decided >= 40 && lv.max >= 50 && overlapped >= 5
 	res.Sample = map[string]any{"cfg": s.Cfg.String(), "variant": "live", "run_ms": s.RunMs, "monitor": mon.String(), "replica_monitor": rmon.String(),
 		"commits": commits.Load(), "txids": lv.max, "restore_calls": len(all), "restores_decided": decided, "restores_overlapping_a_publication": overlapped,
@@ -610,12 +631,13 @@ func (lv *live) decide(what string, r *liveRestore, static bool) (decided bool) 
 			res.HarnessErr = r.err
 			return false
 		}
-		res.Evals++
 		switch {
 		case avail == 0:
+			res.Evals++
 			res.Count("live_T_before_anything_available_fails", 1)
 			return true
 		case static:
+			res.Evals++
 			res.Violate("ts-restore-failed-although-state-available", "%s: fails although TXID %d was replicated before T and every level-0 file is present: %s", where, exp, r.err)
 			return true
 		default:
@@ -641,8 +663,14 @@ func (lv *live) decide(what string, r *liveRestore, static bool) (decided bool) 
 		return true
 	case len(before) == 0:
 		n := match[0]
-		res.Violate("ts-restore-includes-later-transaction", "%s: output is the state of TXID %v; TXID %d was replicated at %d >= T (%d ms after T), the newest transaction replicated before T is TXID %d at %d",
-			where, match, n, lv.ts[n], lv.ts[n]-r.T, exp, lv.tsOr0(exp))
+		hint := ""
+		for _, m := range match {
+			if S, ok := lv.snapS[m]; ok && S < lv.ts[m] {
+				hint += fmt.Sprintf("; level-9 file 1-%d on the replica carries header time %d, %d ms before ts(%d)", m, S, lv.ts[m]-S, m)
+			}
+		}
+		res.Violate("ts-restore-includes-later-transaction", "%s: output is the state of TXID %v; TXID %d was replicated at %d >= T (%d ms after T), the newest transaction replicated before T is TXID %d at %d%s",
+			where, match, n, lv.ts[n], lv.ts[n]-r.T, exp, lv.tsOr0(exp), hint)
 		return true
 	case before[len(before)-1] < avail:
 		key := "ts-restore-older-than-available"
@@ -660,9 +688,6 @@ func (lv *live) decide(what string, r *liveRestore, static bool) (decided bool) 
 	if before[len(before)-1] > avail {
 		res.Count("live_restores_newer_than_what_was_available_at_call_start", 1)
 	}
-	if r.T > lv.ts[lv.max] {
-		res.Count("live_restores_T_after_newest_txid", 1)
-	}
 	return true
 }
 
@@ -673,49 +698,53 @@ func (lv *live) tsOr0(n int) int64 {
 	return lv.ts[n]
 }
 
-// checkSnapshots reads the header time S of every level-9 file 1..N left on the
-// replica. S < ts(N) alone is only counted; the verdict comes from restores run
-// now (static replica, plain client) at T = ts(N) and T = S+1ms.
-func (lv *live) checkSnapshots() int {
+// readSnapshots reads the header time S of every level-9 file 1..N left on the
+// replica. Returns true when the case must end.
+func (lv *live) readSnapshots() bool {
 	e, res := lv.e, lv.res
-	type snapFile struct {
-		oracle.FileRef
-		S int64
-	}
-	var early, other []snapFile
-	examined := 0
+	lv.snapS = map[int]int64{}
 	for _, f := range oracle.ListLevel(e.RepPath, 9) {
 		fh, err := os.Open(f.Path)
 		if err != nil {
 			res.HarnessErr = "open snapshot: " + err.Error()
-			return examined
+			return true
 		}
 		dec := ltx.NewDecoder(fh)
 		err = dec.DecodeHeader()
 		fh.Close()
 		if err != nil {
 			res.Violate("snapshot-invalid", "%s: %v", f, err)
-			return examined
+			return true
 		}
 		hd := dec.Header()
-		if int(hd.MaxTXID) != f.Max || f.Min != 1 || f.Max > lv.max {
+		if int(hd.MaxTXID) != f.Max || f.Min != 1 || int(hd.MinTXID) != 1 || f.Max > lv.max {
 			res.Violate("snapshot-invalid", "%s: header says %d-%d, level-0 files reach %d", f, hd.MinTXID, hd.MaxTXID, lv.max)
-			return examined
+			return true
 		}
-		examined++
-		sf := snapFile{f, hd.Timestamp}
+		lv.snapFiles = append(lv.snapFiles, liveSnapFile{f, hd.Timestamp})
+		lv.snapS[f.Max] = hd.Timestamp
+	}
+	return false
+}
+
+// checkSnapshots: S < ts(N) alone is only counted; the verdict comes from
+// restores run now (static replica, plain client) at T = ts(N), S+1ms and S.
+func (lv *live) checkSnapshots() int {
+	e, res := lv.e, lv.res
+	var early, other []liveSnapFile
+	for _, sf := range lv.snapFiles {
 		switch {
-		case sf.S < lv.ts[f.Max]:
+		case sf.S < lv.ts[sf.Max]:
 			res.Count("live_snapshots_stamped_before_their_newest_txid", 1)
 			early = append(early, sf)
-		case sf.S == lv.ts[f.Max]:
+		case sf.S == lv.ts[sf.Max]:
 			res.Count("snapshots_sharing_the_millisecond_of_their_newest_txid", 1)
 			other = append(other, sf)
 		default:
 			other = append(other, sf)
 		}
 	}
-	res.Count("live_snapshot_files_examined", examined)
+	res.Count("live_snapshot_files_examined", len(lv.snapFiles))
 	if len(early) > 8 {
 		early = early[:8]
 	}
@@ -725,6 +754,7 @@ func (lv *live) checkSnapshots() int {
 	}
 	rr := e.ReadReplica()
 	q := lv.pub.seq.Load()
+	nv := len(res.Violations)
 	for _, sf := range append(early, other...) {
 		for _, T := range []int64{lv.ts[sf.Max], sf.S + 1, sf.S} {
 			opt := litestream.NewRestoreOptions()
@@ -739,10 +769,10 @@ func (lv *live) checkSnapshots() int {
 			}
 			lv.decide(fmt.Sprintf("restore on the static replica around snapshot %s (header time %d, ts(%d)=%d)", sf.FileRef, sf.S, sf.Max, lv.ts[sf.Max]), &rec, true)
 			res.Count("live_static_restores_around_snapshot_stamps", 1)
-			if len(res.Violations) > 0 {
-				return examined
+			if len(res.Violations) > nv || res.HarnessErr != "" {
+				return len(lv.snapFiles)
 			}
 		}
 	}
-	return examined
+	return len(lv.snapFiles)
 }
